@@ -79,3 +79,8 @@ void h_aadd_axis_dtype8(void){ DECL; u8 out8 = 0; i32 ax = IN_AXIS(); u64 an = n
   for (int k = 0; k < 4; k++) ex[k] = k < 3 ? shape[k] : 0; in_index(idx, ex, 3); u64 nd = 3; int r = k_aadd_axis_dtype8(shape, data, (u32)ax, ARGS8);
   ASSERT(r == 1 && od == 3, "accumulate keeps the source dim"); for (int k = 0; k < 3; k++) ASSERT(os[k] == shape[k], "accumulate keeps the source shape");
   ASSERT(out8 == (u8)ref_accum(shape, data, an, idx, 1), "element == running fold in the requested 8-bit dtype"); OBS(out8); REACHED(); }
+void h_radd_none_dtype_init_keep(void){ DECLB; u32 init = in_any32(); CHECK(k_radd_none_dtype_init_keep(shape, data8, init, ARGS), 7u, 1, 1, 1, init); REACHED(); }
+void h_radd_none_dtype_init(void){ DECLB; u32 init = in_any32(); CHECK(k_radd_none_dtype_init(shape, data8, init, ARGS), 7u, 0, 1, 1, init); REACHED(); }
+void h_radd_none_dtype_keep(void){ DECLB; CHECK(k_radd_none_dtype_keep(shape, data8, ARGS), 7u, 1, 1, 0, 0); REACHED(); }
+void h_radd_axis_dtype_init_keep(void){ DECLB; i32 ax = IN_AXIS(); u32 m = 1u << norm(ax, 3); u32 init = in_any32();
+  CHECK(k_radd_axis_dtype_init_keep(shape, data8, (u32)ax, init, ARGS), m, 1, 1, 1, init); REACHED(); }
